@@ -101,6 +101,7 @@ type Pred struct {
 	Body   Expr
 	Src    string
 	Pkg    string
+	Ret    string // declared result type (recursive definitions)
 }
 
 type UF struct {
@@ -511,15 +512,35 @@ func ParseSpecLines(pkg, file string, lines []string, lineNos []int) (*SpecFile,
 			cur = &Contract{Key: rest, Pkg: pkg, Flags: map[string]bool{}, File: file, Line: l.n}
 			sf.Contracts = append(sf.Contracts, cur)
 		case "pred":
-			// name(params) = expr
-			eq := strings.Index(rest, ") =")
+			// name(params) [result-type] = expr      (the result type is needed only for recursive definitions)
+			op := strings.Index(rest, "(")
+			if op < 0 {
+				return nil, errf(fmt.Errorf("bad pred"))
+			}
+			depth, cl := 0, -1
+			for i := op; i < len(rest) && cl < 0; i++ {
+				switch rest[i] {
+				case '(':
+					depth++
+				case ')':
+					depth--
+					if depth == 0 {
+						cl = i
+					}
+				}
+			}
+			if cl < 0 {
+				return nil, errf(fmt.Errorf("bad pred"))
+			}
+			after := rest[cl+1:]
+			eq := strings.Index(after, "=")
 			if eq < 0 {
 				return nil, errf(fmt.Errorf("bad pred"))
 			}
-			head, body := rest[:eq+1], strings.TrimSpace(rest[eq+3:])
-			op := strings.Index(head, "(")
-			name := strings.TrimSpace(head[:op])
-			ps, err := parseParams(head[op+1 : len(head)-1])
+			rtype := strings.TrimSpace(after[:eq])
+			body := strings.TrimSpace(after[eq+1:])
+			name := strings.TrimSpace(rest[:op])
+			ps, err := parseParams(rest[op+1 : cl])
 			if err != nil {
 				return nil, errf(err)
 			}
@@ -527,7 +548,7 @@ func ParseSpecLines(pkg, file string, lines []string, lineNos []int) (*SpecFile,
 			if err != nil {
 				return nil, errf(err)
 			}
-			sf.Preds = append(sf.Preds, &Pred{Name: name, Params: ps, Body: e, Src: body, Pkg: pkg, Opaque: opaque})
+			sf.Preds = append(sf.Preds, &Pred{Name: name, Params: ps, Body: e, Src: body, Pkg: pkg, Opaque: opaque, Ret: rtype})
 		case "uf":
 			op := strings.Index(rest, "(")
 			cl := strings.LastIndex(rest, ")")
